@@ -126,7 +126,7 @@ ValueCases ==
 \* static entry 51), once and twice, between ordinary fields
 SpecialCases ==
   {Vec(TRUE, Std, Block([i \in 1..4 |-> Fld(ReqPseudo[i], 1)] \o <<Fld(E("accept", "*/*"), 2), Fld(E(n, v), r)>> \o tail), Plain, <<>>, "special") :
-      r \in {1, 2, 4, 6}, n \in {"referer", "cookie", "user-agent", "accept-encoding"}, v \in {"", "a=1"},
+      r \in {1, 2, 4, 6}, n \in {"referer", "cookie", "user-agent", "accept-encoding"}, v \in {"", "a=1", "token=YWJjZA==; prefs=lang=en&tz=utc; flag"},
       tail \in {<<Fld(E("x-last", "1"), 4)>>, <<Fld(E("referer", ""), 1), Fld(E("x-last", "1"), 6)>>, <<Fld(E("cookie", ""), 4), Fld(E("referer", "https://r.example/"), 2)>>}}
 
 \* TLC evaluates every constant definition at start-up, so all families are emitted by one run
